@@ -494,6 +494,8 @@ funcload(struct func *f, struct type *t, struct lvalue lval)
 	case TYPEUNION:
 	case TYPEARRAY:
 		return lval.addr;
+	case TYPEVOID:
+		return NULL;
 	}
 	qt = qbetype(t);
 	v = funcinst(f, qt.load, qt.base, lval.addr, NULL);
